@@ -178,7 +178,7 @@ def step (l : L) : L :=
       else if r == 34 || r == 39 then
         if peek l == r then
           let l1 := (next l).2
-          if peek l1 == r then { (next l1).2 with state := .multiline }
+          if peek l1 == r then { (next l1).2 with stringOpen := r, state := .multiline }
           else emit l1 .STRING
         else { l with stringOpen := r, state := .str }
       else if r == 96 then { l with backquoteOpen := r, state := .rawString }
@@ -241,12 +241,11 @@ def step (l : L) : L :=
   | .multiline =>
     let (c, l') := next l
     if c == eof then { errorf l' "unterminated multiline string" with state := .done }
-    else if c == 34 || c == 39 then
-      let t := peek l'
-      if t == 34 || t == 39 then
+    else if c == l.stringOpen then
+      -- the string ends with three of the quotes it opened with; quotes of the other kind are text
+      if peek l' == l.stringOpen then
         let l2 := (next l').2
-        let t2 := peek l2
-        if t2 == 34 || t2 == 39 then { emit (next l2).2 .MULTILINE_STRING with state := .statements }
+        if peek l2 == l.stringOpen then { emit (next l2).2 .MULTILINE_STRING with state := .statements }
         else l2
       else l'
     else l'
